@@ -5,7 +5,7 @@ from harness.oracles import all as ALL
 ID = 'C01'
 UNITS = ['event_metrics', 'transcription_scores', 'multipitch_metrics', 'melody_metrics', 'seg_cluster_q', 'hier_gauc', 'weighted_accuracy', 'key_score', 'pattern_scores', 'alignment_scores', 'tempo_detection', 'beat_q']
 TRANSLATORS = []
-NOT_COVERED = 'Partial: the information-gain entropy/log2 step, MI/NMI/AMI/NCE/V bounds and the alignment "perceptual" metric are not theorems; they are covered by the oracle only.'
+NOT_COVERED = 'Partial: the information-gain entropy/log2 step, AMI <= 1 and the alignment "perceptual" metric are not theorems; they are covered by the oracle only.'
 ASSUMPTIONS = ['exact-arithmetic lattices for the correspondence (DESIGN.md section 2.1); NumPy/SciPy primitives as modelled per module']
 
 oracle_search = propgen.budgeted([ALL.for_property(ID)])
@@ -29,6 +29,6 @@ REFUTED = []
 MANIFEST = {
     'text': 'One bound theorem per modelled metric (beat/onset/boundary P/R/F and deviation, transcription x4 and AOR <= 1, multipitch errors and accuracy, the five melody measures, pairwise/Rand/ARI, T-/L-measure, chord weighted accuracy, key, pattern est/occ/3-layer/first-n, tempo, alignment), from hits <= min(|ref|,|est|) of the verified maximum matching and f_measure_range; refutations for pairwise (NaN) and standard_FPR (> 1).',
     'design_ref': 'DESIGN.md section 6, C01',
-    'level_note': 'Trusted: Coq kernel + vm_compute; correspondence harness per modelled metric; NumPy/SciPy primitives as modelled. ' + 'Partial: the information-gain entropy/log2 step, MI/NMI/AMI/NCE/V bounds and the alignment "perceptual" metric are not theorems; they are covered by the oracle only.',
+    'level_note': 'Trusted: Coq kernel + vm_compute; correspondence harness per modelled metric; NumPy/SciPy primitives as modelled. ' + 'Partial: the information-gain entropy/log2 step, AMI <= 1 and the alignment "perceptual" metric are not theorems; they are covered by the oracle only.',
     'technique': 'Coq proof on Gallina models of the task metrics (maximum-matching size lemmas, exact rational arithmetic); model/code correspondence by vm_compute',
 }
